@@ -65,9 +65,9 @@ Section Progress.
   Proof.
     intros Hc Hrk [_ [E [Hann H]]]. unfold check_pc in Hc. rewrite Hann in Hc. unfold check_rank_pc in Hrk.
     unfold RaIRModel.tstep.
-    destruct (nth_error tp t) as [[o tu td|d src w keep e|a b w|o tu l|l|l|tu]|] eqn:Ht; try discriminate.
+    destruct (nth_error tp t) as [[o tu td|d src w keep e|a b w|o tu l|l|l|tu|o tu tls]|] eqn:Ht; try discriminate.
     - (* TOp *)
-      destruct (nth_error sp s) as [[o' su sd|? ? ?|? ? ?|?|?|?]|] eqn:Hs; try discriminate.
+      destruct (nth_error sp s) as [[o' su sd|? ? ?|? ? ?|?|?|?|? ? ?]|] eqn:Hs; try discriminate.
       apply andb_true_iff in Hc. destruct Hc as [Hc He]. apply andb_true_iff in Hc. destruct Hc as [Ho Hu].
       apply N.eqb_eq in Ho. subst o'.
       destruct (defs_eqs E sd td) as [E'|] eqn:Hd; [|discriminate].
@@ -79,7 +79,7 @@ Section Progress.
     - (* TMove *)
       apply Nat.ltb_lt in Hrk.
       apply orb_true_iff in Hc. destruct Hc as [Hc | Hc].
-      + destruct (nth_error sp s) as [[? ? ?|dv sv w'|? ? ?|?|?|?]|] eqn:Hs; try discriminate.
+      + destruct (nth_error sp s) as [[? ? ?|dv sv w'|? ? ?|?|?|?|? ? ?]|] eqn:Hs; try discriminate.
         apply andb_true_iff in Hc. destruct Hc as [Hj He].
         unfold joint_ok in Hj. apply andb_true_iff in Hj. destruct Hj as [Hj Hi].
         apply andb_true_iff in Hj. destruct Hj as [Hj Hreg]. apply andb_true_iff in Hj. destruct Hj as [Hw Hk].
@@ -94,7 +94,7 @@ Section Progress.
       apply andb_true_iff in Hc. destruct Hc as [Ha Hb].
       eapply edge2; [apply (tswap_holds E V T a b w H Ha Hb Hd) | eassumption | assumption].
     - (* TCond *)
-      destruct (nth_error sp s) as [[? ? ?|? ? ?|o' su l'|?|?|?]|] eqn:Hs; try discriminate.
+      destruct (nth_error sp s) as [[? ? ?|? ? ?|o' su l'|?|?|?|? ? ?]|] eqn:Hs; try discriminate.
       apply andb_true_iff in Hc. destruct Hc as [Hc He]. apply andb_true_iff in Hc. destruct Hc as [Ho Hu].
       apply N.eqb_eq in Ho. subst o'.
       destruct (find_tlabel l tp 0) as [t'|] eqn:Hft; [|discriminate].
@@ -112,9 +112,22 @@ Section Progress.
     - (* TLabel *)
       apply Nat.ltb_lt in Hrk. eapply edge2; eassumption.
     - (* TRet *)
-      destruct (nth_error sp s) as [[? ? ?|? ? ?|? ? ?|?|?|su]|] eqn:Hs; try discriminate.
+      destruct (nth_error sp s) as [[? ? ?|? ? ?|? ? ?|?|?|su|? ? ?]|] eqn:Hs; try discriminate.
       rewrite <- (check_uses_ok E V T H su tu Hc).
       cbn [sim_result2]. rewrite srun_one. unfold RaIRModel.sstep. rewrite Hs. reflexivity.
+    - (* TJmpTab *)
+      destruct (nth_error sp s) as [[? ? ?|? ? ?|? ? ?|?|?|?|o' su sls]|] eqn:Hs; try discriminate.
+      apply andb_true_iff in Hc. destruct Hc as [Hc Hall]. apply andb_true_iff in Hc. destruct Hc as [Hc Hne].
+      apply andb_true_iff in Hc. destruct Hc as [Hc Hlen]. apply andb_true_iff in Hc. destruct Hc as [Ho Hu].
+      apply N.eqb_eq in Ho. subst o'. apply Nat.eqb_eq in Hlen. apply negb_true_iff in Hne. apply Nat.eqb_neq in Hne.
+      rewrite <- (check_uses_ok E V T H su tu Hu).
+      destruct (sem o (sread V su) W) as [res W'] eqn:Hsem.
+      pose proof (pick_in tls sls (hd 0%Z res) Hlen Hne) as Hin.
+      rewrite forallb_forall in Hall. specialize (Hall _ Hin). cbn [fst snd] in Hall.
+      destruct (find_tlabel (pick tls (hd 0%Z res)) tp 0) as [t'|] eqn:Hft; [|discriminate].
+      destruct (find_slabel (pick sls (hd 0%Z res)) sp 0) as [s'|] eqn:Hfs; [|discriminate].
+      eapply step_edge2; [|eassumption|eassumption].
+      unfold RaIRModel.sstep. rewrite Hs, Hsem, Hfs. reflexivity.
   Qed.
 
   Lemma rank_pc_of_check tp rk t : check_progress tp rk = true -> (t < length tp)%nat -> check_rank_pc tp rk t = true.
